@@ -29,7 +29,9 @@ Q_FILES = ["Q/Arith.v", "Q/MemProofs.v", "Q/FlatProofs.v", "Q/SysProofs.v", "Q/F
 COQ_TARGETS = ["Q/Extract.vo", "Props/C17.vo"]
 
 S_LIST = [0, 1, 2, 3, 4, 7, 8, 9, 15, 16, 17, 24, 31, 32, 33, 48, 63, 64, 65, 100, 127, 128, 129, 255, 256, 257, 511, 512,
-          1000, 1023, 1024, 1025, 2047, 2048, 4095, 4096]
+          1000, 1023, 1024, 1025, 2047, 2048, 4095, 4096,
+          # just below a power of two: req + 32 (the chained-queue item) crosses the next growth boundary
+          2016, 2024, 2032, 2040, 4064, 4072, 4080, 4088]
 A_LIST = [1, 2, 4, 8, 16, 32, 64, 128]
 CLASSES = [(s, a) for s in S_LIST for a in A_LIST]
 BOUNDARIES = [1024, 2048, 4096, 8192, 16384, 32768, 65536]
@@ -456,7 +458,7 @@ def generate(seed, tier):
             if boundary <= 2048:
                 classes = CLASSES
             else:
-                k = {4096: 288, 8192: 120, 16384: 64, 32768: 32, 65536: 16}[boundary]
+                k = {4096: len(CLASSES), 8192: 120, 16384: 64, 32768: 32, 65536: 16}[boundary]
                 classes = rng.sample(CLASSES, k)
             extra = 0
         for (s, a) in classes:
@@ -547,7 +549,7 @@ class Tools:
         self.problems = []
 
 
-def evaluate(tools, path, timeout=600):
+def evaluate(tools, path, timeout=90):
     """Run one case file through every program.  Returns {case name: reason} for the failing cases + counters."""
     fails = {}
     runs = {}
@@ -920,7 +922,9 @@ def report_failure(prop, ev, tools, fails):
 
 
 def run(prop, tier, seed):
-    assert prop == "C17"
+    # C17 (flat == boxed) and the flat-queue part of C16 (every access in bounds and aligned, each item consumed
+    # exactly once, no assertion of flat.rs fails: FlatSafety theorems + the same three-way correspondence)
+    assert prop in ("C17", "C16")
     ev = vlib.Evidence(prop, tier, seed, level="proof")
     tools = Tools()
     os.makedirs(WORK, exist_ok=True)
@@ -1046,7 +1050,7 @@ def _run(prop, tier, seed, ev, tools, rundir):
 
 
 def replay(prop, path):
-    assert prop == "C17"
+    assert prop in ("C17", "C16")
     ev = vlib.Evidence(prop, "quick", 0, level="proof")
     tools = Tools()
     os.makedirs(WORK, exist_ok=True)
